@@ -68,7 +68,7 @@ NAN_PAYLOAD2 = _bits(_UNKNOWN_BITS ^ 1)              # lowest payload bit flippe
 NAN_PAYLOAD_HI = _bits(_UNKNOWN_BITS ^ (1 << 50))    # a high payload bit flipped (still quiet)
 
 # 40 slots per block; the block pattern is rotated so that no worker shard (idx % nshards) sees one family only
-_PATTERN = (["mutate"] * 14 + ["sweep"] * 16 + ["index"] * 4 + ["reorder"] * 5 + ["large"] * 1)
+_PATTERN = (["mutate"] * 13 + ["fileindex"] + ["sweep"] * 16 + ["index"] * 4 + ["reorder"] * 5 + ["large"] * 1)
 _ORDER = [0, 14, 30, 34, 1, 15, 16, 2, 17, 35, 3, 18, 31, 4, 19, 20, 5, 21, 36, 6, 22, 32, 7, 23, 24, 8, 25, 37, 9, 26,
           33, 10, 27, 28, 11, 29, 38, 12, 39, 13]
 assert sorted(_ORDER) == list(range(40)) and len(_PATTERN) == 40
@@ -1260,9 +1260,93 @@ ALT_ENTRY_POINTS = [
 ]
 
 
+def run_fileindex(case, ctx, rng):
+    """A stored index whose two arrays have the SAME length, but not the length of the edge table (a file written by another
+    tool, or damaged): 'an index consistent with the edges' is a requirement of tskit.load, so the file must be refused.
+    Such a file cannot be produced through dump() (a stale index is not written), hence the independent kastore writer."""
+    import os
+    import tempfile
+    from lib.props.c10_ext import pack, parse_items
+    m = gen_model(rng, "edges")
+    tc = to_tables(m)
+    try:
+        tc.tree_sequence()
+    except LIB_ERRORS:
+        return
+    ne = tc.edges.num_rows
+    ctx.sig(("fileindex", m.signature()), nontrivial=ne > 0)
+    if ne == 0:
+        return
+    d = tempfile.mkdtemp(prefix="verif-c02-")
+    try:
+        path = os.path.join(d, "a.trees")
+        tc.dump(path)
+        items = parse_items(open(path, "rb").read())
+        keys = (b"indexes/edge_insertion_order", b"indexes/edge_removal_order")
+        idx = {k: np.frombuffer(raw, dtype="<i4") for k, _, raw in items if k in keys}
+        if len(idx) != 2:
+            ctx.violation("HARNESS-ERROR", "dumped file has no index items")
+            return
+        modes = ["longer+valid-ids", "longer+copy-of-last", "longer+1", "shorter-1", "half", "doubled", "empty"]
+        mode = modes[case.get("i", 0) % len(modes)]
+        k = rng.randint(2, 5)
+
+        def alter(a):
+            if mode == "longer+valid-ids":
+                return np.concatenate([a, np.array([rng.randrange(ne) for _ in range(k)], dtype="<i4")])
+            if mode == "longer+copy-of-last":
+                return np.concatenate([a, np.repeat(a[-1:], k)])
+            if mode == "longer+1":
+                return np.concatenate([a, a[:1]])
+            if mode == "shorter-1":
+                return a[:-1]
+            if mode == "half":
+                return a[:len(a) // 2]
+            if mode == "doubled":
+                return np.concatenate([a, a])
+            return a[:0]
+        new = {kk: alter(v) for kk, v in idx.items()}
+        if len(new[keys[0]]) == ne:
+            return
+        items2 = [(kk, typ, new[kk].astype("<i4").tobytes() if kk in new else raw) for kk, typ, raw in items]
+        bad = os.path.join(d, "b.trees")
+        with open(bad, "wb") as f:
+            f.write(pack(items2))
+        before = tables_bytes(tc)
+        forms = [("tskit.load(path)", lambda: tskit.load(bad)), ("tskit.load(pathlib)", lambda: tskit.load(__import__("pathlib").Path(bad))),
+                 ("TreeSequence.load(path)", lambda: tskit.TreeSequence.load(bad))]
+        forms.append(("tskit.load(fileobj)", lambda: _load_fileobj(bad)))
+        for name, thunk in forms:
+            ctx.count("fileindex:loads")
+            ctx.feature(f"fileindex:{mode}")
+            try:
+                ts = thunk()
+            except LIB_ERRORS + (EOFError,):
+                continue
+            except Exception as e:  # noqa: BLE001
+                ctx.violation("gate/not-a-library-error/fileindex", f"{name} on a file whose stored index has "
+                              f"{len(new[keys[0]])} entries for {ne} edges ({mode}) raised {type(e).__name__}: {e}")
+                continue
+            ctx.violation("gate/invalid-accepted/index.length-differs-from-edges",
+                          f"{name} accepted a file whose stored index has {len(new[keys[0]])} entries for an edge table of {ne} "
+                          f"rows ({mode}); num_trees={ts.num_trees}", {"model": m.to_json(), "mode": mode})
+        if tables_bytes(tc) != before:
+            ctx.violation("HARNESS-ERROR", "fileindex changed the source collection")
+    finally:
+        import shutil
+        shutil.rmtree(d, ignore_errors=True)
+
+
+def _load_fileobj(path):
+    with open(path, "rb") as f:
+        return tskit.load(f)
+
+
 def run_case(case, ctx):
     rng = case_rng(case)
     fam = case["gen"]
+    if fam == "fileindex":
+        return run_fileindex(case, ctx, rng)
     i = case.get("i", case["k"])
     _ST["row"] = "rand"
     labels = []
